@@ -131,7 +131,8 @@ META = {
 
 MANIFEST = {
     'text': 'Bounded symbolic check with an independent reference decoder over the bytes written by the real writer: z3 decides all both-endian agreements and '
-            'structural equations for every file length in range; plus the sort relation as a strict weak order over all identifiers of <= 3 bytes.',
+            'structural equations for every file length in range; plus the sort relation as a strict weak order over all identifiers of <= 3 bytes, the directory packing lemma, and agreement of every descriptor of the '
+            'ISO9660 root (PVD, duplicate, ISO9660:1999 enhanced) after the layout pass from an arbitrary root length.',
     'note': 'Bounded by skeletons/configurations/lengths; the reference decoder is part of the trusted base. Trusted: CrossHair, z3, M_struct, M_out/M_image.',
     'technique': 'symbolic execution of real write_fp (CrossHair + z3) decoded by an independent ECMA-119 reference reader',
 }
